@@ -466,7 +466,7 @@ def load_findings(pid):
         paths += [os.path.join(d, f) for f in sorted(os.listdir(d)) if f.endswith(".json")]
     for p in paths:
         if os.path.exists(p):
-            out += [f for f in json.load(open(p)).get("findings", []) if f.get("property") == pid]
+            out += [f for f in json.load(open(p)).get("findings", []) if f.get("property") == pid or pid in f.get("properties", [])]
     return out
 
 
